@@ -123,9 +123,26 @@ def run(tier, seed):
                 if is_const(s) and const_val(s) == 1:
                     ff = None
                     for fct in fs:
-                        if fct[0] == "ugt" and M.strip(fct[2]) == ("v", f.params[3].id):
+                        qs = [q for q in f.params if not q.ty.endswith("*") and M.strip(fct[2]) == ("v", q.id)]
+                        if fct[0] == "ugt" and qs:
                             d = f.defn(M.strip(fct[1]))
-                            if d is not None and not d.is_param and d.op == "load" and d.size == 1:
+                            # ... and that parameter is the level counter: at every call site it is a value that steps by one per iteration
+                            stepping = True
+                            for g in mod.defined():
+                                Mg = Matcher(g)
+                                for c in g.insts():
+                                    if c.op == "call" and c.callee == f.name and qs[0].index < len(c.ops):
+                                        a = Mg.strip(c.ops[qs[0].index])
+                                        da = g.defn(a)
+                                        phi = None
+                                        if da is not None and not da.is_param and da.op == "phi":
+                                            phi = da
+                                        elif da is not None and not da.is_param and da.op == "add" and is_const(da.ops[1]) and const_val(da.ops[1]) == 1:
+                                            dp = g.defn(Mg.strip(da.ops[0]))
+                                            phi = dp if dp is not None and not dp.is_param and dp.op == "phi" else None
+                                        okc = phi is not None and any(Mg.match(("bin", "add", ("inst", phi.id), 1), v_, {}) is not None for v_, _ in phi.incoming)
+                                        stepping = stepping and okc
+                            if d is not None and not d.is_param and d.op == "load" and d.size == 1 and stepping:
                                 ff = fct
                     if ff is None:
                         ok = False
@@ -378,8 +395,11 @@ def run(tier, seed):
                 if st.fn.cname == "lha_input_stream_new":
                     rep.check(rid, v == INIT, "constructor sets INIT", st.where(), None, function=st.fn.cname, obj="state-init")
                 else:
-                    ok = v is not None and v != INIT
-                    rep.check(rid, ok, "state = %s outside the constructor is never INIT" % v, st.where(), None, function=st.fn.cname, obj="state")
+                    # every value the store can write (a constant, or a choice between constants) differs from INIT
+                    srcs_ = ctx.facts(st.fn).sources(st.ops[0])
+                    vals_ = [const_val(x) if is_const(x) else None for x, _ in srcs_]
+                    ok = bool(vals_) and all(x is not None and x != INIT for x in vals_)
+                    rep.check(rid, ok, "state = %s outside the constructor is never INIT" % (v if v is not None else sorted(set(map(str, vals_)))), st.where(), None, function=st.fn.cname, obj="state")
                     guarded_site(rep, rid, ctx, st, [("state == INIT", ("eq", ("load", ("field", "LHAInputStream", "state", ANY)), INIT))])
 
         # ---- R4 sfx scan ------------------------------------------------------------------------------------------
